@@ -4,7 +4,7 @@ import os, subprocess
 V = os.path.dirname(os.path.dirname(os.path.abspath(__file__)))
 tpl = open(f"{V}/tools/design9.template.md").read()
 table = subprocess.run(["python3", f"{V}/tools/seedtable.py"], capture_output=True, text=True).stdout
-tpl = tpl.replace("@@SEEDTABLE@@", table).replace("@@FIXROWS@@\n", "")
+tpl = tpl.replace("@@NSEEDS@@", str(table.count("\n| `"))).replace("@@SEEDTABLE@@", table).replace("@@FIXROWS@@\n", "")
 d = open(f"{V}/DESIGN.md").read()
 marker = "\n## 9. As built"
 if marker in d:
